@@ -14,7 +14,7 @@ conflict checks.
 from __future__ import annotations
 
 import logging
-from dataclasses import dataclass
+from dataclasses import dataclass, field
 from enum import Enum
 from typing import TYPE_CHECKING, Any, Protocol, runtime_checkable
 
@@ -99,6 +99,8 @@ class _CommitLogEntry:
     version: int
     keys_written: frozenset[str]
     keys_read: frozenset[str]
+    # Value each written key had just before this commit was applied
+    before_images: dict[str, Any] = field(default_factory=dict)
 
 
 # ---------------------------------------------------------------------------
@@ -162,6 +164,13 @@ class StorageTransaction:
 
         # Read from underlying store
         value = yield from self._manager._store.get(key)
+        if self._isolation != IsolationLevel.READ_COMMITTED:
+            # The store holds the latest committed value. If the key was
+            # overwritten after this transaction's snapshot, the value as of
+            # the snapshot is the before-image kept by the first such commit.
+            for entry in self._manager._commit_log:
+                if entry.version > self._snapshot_version and key in entry.before_images:
+                    return entry.before_images[key]
         return value
 
     def write(self, key: str, value: Any) -> Generator[float]:
@@ -199,8 +208,10 @@ class StorageTransaction:
             logger.debug("[tx-%d] Aborted due to conflict", self._tx_id)
             return False
 
-        # Apply writes
+        # Apply writes, keeping the overwritten values for snapshot reads
+        before_images: dict[str, Any] = {}
         for key, value in self._write_set.items():
+            before_images[key] = self._manager._store.get_sync(key)
             self._manager._store.put_sync(key, value)
 
         # Record in commit log
@@ -210,6 +221,7 @@ class StorageTransaction:
             version=self._manager._version,
             keys_written=frozenset(self._write_set.keys()),
             keys_read=frozenset(self._read_set),
+            before_images=before_images,
         )
         self._manager._commit_log.append(entry)
 
